@@ -121,6 +121,7 @@ type c01Director struct {
 	// priorLoss is the first acknowledged-entry loss the C01 oracle saw in this
 	// case. A C02 breach observed after it is reported under a signature that
 	// names the dependency, because the lost entry's offsets get reused.
+	cmdByID     map[ch.CommandID]*c01Cmd
 	priorLoss   map[string]any
 	priorSuffix string
 	reported    map[string]bool
@@ -284,8 +285,11 @@ func (d *c01Director) violation(prop int, sig string, extra map[string]any) {
 func (d *c01Director) observe(info c01StepInfo) map[ch.NodeID]c01Snap {
 	post := d.snapshotAll()
 	d.r.Eval(1)
-	d.checkC02(info, post)
+	d.countBackgroundGrowth(info, post)
+	// C01 first: it records an Install that discarded a quorum-held entry, which
+	// decides the signature of any C02 breach seen from this step on.
 	d.checkC01(info, post)
+	d.checkC02(info, post)
 	for id, s := range post {
 		if s.OK {
 			d.last[id] = s
@@ -294,10 +298,79 @@ func (d *c01Director) observe(info c01StepInfo) map[ch.NodeID]c01Snap {
 	return post
 }
 
+// countBackgroundGrowth counts replicas whose log grew while no client call was
+// running (follower gap repair, trailing replication), and whether what they
+// received belongs to a proposal that never got a receipt.
+func (d *c01Director) countBackgroundGrowth(info c01StepInfo, post map[ch.NodeID]c01Snap) {
+	switch info.kind {
+	case "commit", "commit-error", "commit-second", "retry", "install":
+		return
+	}
+	for _, id := range d.c.ids {
+		s, prev := post[id], d.last[id]
+		if !s.OK || !prev.OK || s.St.LEO <= prev.St.LEO {
+			continue
+		}
+		d.r.Count("gap_repairs_observed", 1)
+		unquorate := false
+		for o := prev.St.LEO + 1; o <= s.St.LEO; o++ {
+			if e, ok := s.at(o); ok {
+				if c := d.cmdByID[e.CommandID]; c != nil && !c.acked {
+					unquorate = true
+				}
+			}
+		}
+		if unquorate {
+			d.r.Count("unquorate_tail_reshipped", 1)
+			d.fp = append(d.fp, fmt.Sprintf("uqship%d", id))
+		}
+	}
+}
+
+// checkQuorumHeld: a replica's persisted Committed never exceeds what a write
+// quorum holds. Every Committed value a store persists was computed inside a
+// client call (sealed with hw, a recovery page, a barrier) after Q replicas
+// already held that prefix, and committed entries are never removed, so when
+// the director samples all stores between calls, every one of those Q holders
+// shows the entry whatever order the stores are read in. Stopped nodes are
+// read too (crash-stop keeps their store).
+func (d *c01Director) checkQuorumHeld(info c01StepInfo, post map[ch.NodeID]c01Snap) {
+	for _, id := range d.c.ids {
+		s := post[id]
+		top, ok := s.at(s.St.Committed)
+		if !s.OK || !ok {
+			continue
+		}
+		var holders []ch.NodeID
+		for _, v := range d.c.ids {
+			if e, ok := post[v].at(s.St.Committed); ok && e == top {
+				holders = append(holders, v)
+			}
+		}
+		d.r.Count("c02.committed_quorum_held_checks", 1)
+		if len(holders) >= d.p.Q {
+			continue
+		}
+		if d.priorLoss != nil {
+			// restates the known Install truncation: the holders were removed by it
+			d.r.Count("c02.committed_above_quorum_held_prefix_after_known_truncation", 1)
+			continue
+		}
+		unacked := ""
+		if c := d.cmdByID[top.CommandID]; c != nil && !c.acked {
+			unacked = fmt.Sprintf("cmd#%d never received a receipt", c.seq)
+		}
+		d.violation(c01ModeC02, "committed-above-quorum-held-prefix", map[string]any{"node": id, "committed": s.St.Committed, "holders_of_that_entry": holders,
+			"write_quorum": d.p.Q, "entry_belongs_to": unacked, "step": info.kind, "all": d.briefAll(post)})
+		return
+	}
+}
+
 // ---------------------------------------------------------------------------
 // C02 oracle.
 
 func (d *c01Director) checkC02(info c01StepInfo, post map[ch.NodeID]c01Snap) {
+	defer d.checkQuorumHeld(info, post)
 	for _, id := range d.c.ids {
 		s := post[id]
 		if !s.OK {
@@ -962,6 +1035,10 @@ func (d *c01Director) newCmd(x ch.NodeID, nrec, payload int) *c01Cmd {
 			Payload: pl, SizeBytes: len(pl)})
 	}
 	d.cmds = append(d.cmds, cmd)
+	if d.cmdByID == nil {
+		d.cmdByID = map[ch.CommandID]*c01Cmd{}
+	}
+	d.cmdByID[cmd.id] = cmd
 	return cmd
 }
 
@@ -1263,8 +1340,12 @@ func (d *c01Director) randomStep() {
 		if x == 0 || !d.doRetryAcked(x) {
 			d.settle(1)
 		}
-	case op < 98:
+	case op < 95:
 		d.settle(1 + a1%4)
+	case op < 98: // unquorate tail re-shipped by gap repair, then leader and that follower vanish
+		if !d.unquorateRepairShape(0, 0, 1+a1%2, a2%2 == 0) {
+			d.settle(1)
+		}
 	default: // crash point between recovery pages on the installing node
 		if d.budget() <= 0 {
 			d.settle(1)
@@ -1273,6 +1354,90 @@ func (d *c01Director) randomStep() {
 		x := d.pick(d.available())
 		d.crashDuringInstall(x, 1+a1%2)
 	}
+}
+
+// unquorateRepairShape: the leader is cut from every peer and a Commit fails for
+// lack of quorum (durable on the leader only); the link to one follower heals
+// so the leader's repair owner re-ships that tail; then leader and that
+// follower are cut from everyone and a voter that never saw the tail installs
+// and commits. Needs two simultaneously unavailable voters (N-Q >= 2).
+func (d *c01Director) unquorateRepairShape(l, b ch.NodeID, recs int, returns bool) bool {
+	if l == 0 {
+		l = d.leader
+	}
+	if l == 0 || !d.c.nodes[l].up || d.p.N-d.p.Q < 2 || len(d.unavailable()) != 0 || d.pending[l] != nil {
+		return false
+	}
+	if _, ok := d.ready[l]; !ok {
+		return false
+	}
+	peers := d.peersOf(l)
+	if b == 0 {
+		b = d.pick(peers)
+	}
+	d.r.Count("steps.unquorate_repair_shape", 1)
+	d.doPartition(l, peers, 0)
+	if d.stopped {
+		return true
+	}
+	d.doCommit(l, recs, 0)
+	cmd := d.pending[l]
+	if d.stopped || cmd == nil {
+		return true // it was acknowledged after all (or the case ended)
+	}
+	var rest []ch.NodeID
+	for _, v := range peers {
+		if v != b {
+			rest = append(rest, v)
+		}
+	}
+	d.doPartition(l, rest, 0) // only the link l<->b heals
+	shipped := false
+	for i := 0; i < 60 && !d.stopped && !shipped; i++ {
+		time.Sleep(3 * time.Millisecond)
+		post := d.observe(c01StepInfo{kind: "await-gap-repair", node: b})
+		for _, e := range post[b].IDs {
+			if e.CommandID == cmd.id {
+				shipped = true
+			}
+		}
+	}
+	if d.stopped {
+		return true
+	}
+	if shipped {
+		d.r.Count("steps.unquorate_repair_shape.tail_reached_follower", 1)
+	} else {
+		d.r.Count("steps.unquorate_repair_shape.tail_not_reshipped_in_time", 1)
+	}
+	d.logStep("cut n%d and n%d from everyone (unquorate tail re-shipped to n%d: %v)", l, b, b, shipped)
+	d.fp = append(d.fp, fmt.Sprintf("uqcut%d", b))
+	d.c.net.topology(func() {
+		d.cutsOf[l] = d.peersOf(l)
+		d.cutsOf[b] = d.peersOf(b)
+		d.applyCuts()
+	})
+	d.faultSteps++
+	d.observe(c01StepInfo{kind: "partition"})
+	if d.stopped {
+		return true
+	}
+	x := d.pick(d.available())
+	if d.doInstall(x, d.nextAuthority(0)) {
+		for i := 0; i < 2 && !d.stopped; i++ {
+			d.doCommit(x, 1, 0)
+		}
+	}
+	if returns && !d.stopped {
+		d.doHeal(l)
+		if !d.stopped {
+			d.doHeal(b)
+		}
+		if !d.stopped {
+			d.settle(5)
+		}
+	}
+	return true
 }
 
 func (d *c01Director) crashDuringInstall(x ch.NodeID, afterPages int) {
